@@ -9,7 +9,15 @@
   * (S) `mulVec_ordered` : the band-limited loop as an ordered sum over the dense row,
         `mulVec_padding` : padding slots are never read
   * (E) `mulVec_spec`    : the loop equals the dense product `Σ_{j<n} dense b i j * v[j]`
-  * `shiftRows_spec`, and the upper-banded case `m1 = 0` of `decompose` / `det` / `solve`.
+  * (S) `shiftRows_spec` / `shiftRows_rejects` (first phase of `decompose`), and the upper-banded
+        case `m1 = 0` of `decompose` / `det` / `solve`
+  * (E) section `FullLU`: functional description of `decElim` / `decStep`, the dense twin `twin` of
+        the compact working matrix, the replay `fwd` of the recorded exchanges and multipliers,
+        the invariant `DecInv` of the pivot loop, both substitution loops, and
+        `solve_sound` (every returned vector solves the dense system, any `(n, m1, m2)`),
+        `solve_complete` (non-zero computed determinant ⇒ `solve` succeeds)
+  * (S) section `Padding`: relational (`RelRes`) lock-step simulation of two runs:
+        `decompose_rel`, `det_padding`, `solve_padding`
 -/
 import Ohsl.Model.Banded
 import Ohsl.Lemmas.MatSpec2
@@ -1904,6 +1912,88 @@ theorem solve_sound {b : Band F} (h : WFb b) {rhs x : Array F}
     intro i hi
     have e1 : min (b.m1 + b.n) b.n = b.n := by omega
     rw [e1, twin_final_row _ hi (by omega), (hrows i hi).2, hf3 i]
+/-- the determinant loop: sign times the product of the pivots -/
+theorem det_loop {au : Mat F} {n mm : Nat} {e : Nat → Nat → F} (hau : Is au n mm e) (hmm : 0 < mm)
+    (d : F) :
+    forM' 0 n d (fun dd i => do
+      let x ← au.get i 0
+      pure (dd * x)) = .ok (d * ∏ i ∈ Finset.range n, e i 0) := by
+  obtain ⟨r, hr, hP⟩ := forM'_inv
+    (fun k (dd : F) => dd = d * ∏ i ∈ Finset.range k, e i 0)
+    0 n d (fun dd i => do
+      let x ← au.get i 0
+      pure (dd * x)) (Nat.zero_le _) (by simp) (by
+      intro k dd _ hk hdd
+      refine ⟨dd * e k 0, ?_, ?_⟩
+      · simp only [hau.get hk hmm, bind, Except.bind, pure, Except.pure]
+      · rw [Finset.prod_range_succ, hdd, mul_assoc])
+  rw [hr, hP]
+
+/-- (E) the back-substitution loop succeeds when every pivot is non-zero -/
+theorem back_total {au : Mat F} {n mm : Nat} {e : Nat → Nat → F} (hau : Is au n mm e)
+    (hmm : 0 < mm) (x0 : Array F) (hx : x0.size = n) (hp : ∀ i, i < n → e i 0 ≠ 0) :
+    ∃ st, (List.range n).reverse.foldlM (fun (xl : Array F × Nat) i => do
+        let xi ← aget xl.1 i
+        let dum ← forM' 1 xl.2 xi (fun dum k => do
+          let a ← au.get i k
+          let xk ← aget xl.1 (k + i)
+          pure (dum - a * xk))
+        let p ← au.get i 0
+        let q ← divM dum p
+        let x ← aset xl.1 i q
+        pure (x, if xl.2 < mm then xl.2 + 1 else xl.2)) (x0, 1) = .ok st ∧ st.1.size = n := by
+  refine Exists.imp (fun st h => ⟨h.1, h.2.1⟩) (foldlM_rev_inv
+    (fun j (st : Array F × Nat) => st.1.size = n ∧ st.2 = min (n - j + 1) mm)
+    _ n (x0, 1) ⟨hx, by simp only; omega⟩ ?_)
+  intro i st hi ⟨q1, q2⟩
+  obtain ⟨x, l⟩ := st
+  simp only at q1 q2 ⊢
+  have hix : i < x.size := by omega
+  have hdum := back_dum hau x q1 hi (l := l) (by omega) (by omega) (by omega) x[i]
+  have hpg := hau.get hi hmm
+  simp only [bind, Except.bind, pure, Except.pure] at hdum ⊢
+  simp only [aget_ok hix, hdum, hpg, Alg.divM_eq, if_neg (hp i hi), aset_ok _ hix]
+  exact ⟨_, rfl, by simpa using q1, by simp only; split <;> omega⟩
+
+/-- (E) **a non-zero computed determinant guarantees that `solve` succeeds** (and then
+    `solve_sound` applies) -/
+theorem solve_complete {b : Band F} (h : WFb b) {rhs : Array F} (hr : rhs.size = b.n) {δ : F}
+    (hd : det b = .ok δ) (hδ : δ ≠ 0) : ∃ x, solve b rhs = .ok x ∧ x.size = b.n := by
+  by_cases hm : b.m1 ≤ b.n
+  swap
+  · rw [det_rejects h (by omega)] at hd; cases hd
+  obtain ⟨s, l, hdec, hl, hau, hal, hsz, hidx, _⟩ := decompose_inv h hm
+  simp only at hl hau hal hsz hidx
+  have hmm : 0 < b.m1 + b.m2 + 1 := by omega
+  -- the pivots are non-zero
+  have hpiv : ∀ i, i < b.n → Mat.entryOf s.au i 0 ≠ 0 := by
+    unfold det at hd
+    rw [hdec] at hd
+    have := det_loop hau hmm s.d
+    simp only [bind, Except.bind, pure, Except.pure] at this hd
+    rw [this] at hd
+    injection hd with hd
+    intro i hi hz
+    apply hδ
+    rw [← hd, Finset.prod_eq_zero (Finset.mem_range.mpr hi) hz, mul_zero]
+  have hn : ¬ b.n ≠ rhs.size := by omega
+  unfold solve
+  rw [if_neg hn]
+  refine bind_ok_of (fun s' => s' = s) ⟨s, hdec, rfl⟩ ?_
+  intro s' hs'
+  subst hs'
+  obtain ⟨st0, hf1, hf2, _⟩ := solve_fwd_spec hal hsz hidx hm rhs hr
+  refine bind_ok_of (fun st => st = st0) ⟨_, hf1, rfl⟩ ?_
+  intro st hst
+  subst hst
+  obtain ⟨xf, lf⟩ := st
+  simp only at hf2 ⊢
+  obtain ⟨st, hb1, hb2⟩ := back_total hau hmm xf hf2 hpiv
+  refine bind_ok_of (fun st' => st' = st) ⟨_, hb1, rfl⟩ ?_
+  intro st' hst'
+  subst hst'
+  exact ⟨st'.1, rfl, hb2⟩
+
 end FullLU
 
 /-! ### padding slots are never read by `decompose` / `det` / `solve` (class (S)): two runs in
